@@ -130,6 +130,7 @@ pub struct Exec<S: ServerPersistence, F: Fn() -> Result<S, StoreError>> {
     pub step: usize,
     pub nontrivial: bool,
     pub digests: Vec<u64>,
+    pub soft: Vec<Fail>,
 }
 
 impl<S: ServerPersistence, F: Fn() -> Result<S, StoreError>> Exec<S, F> {
@@ -149,6 +150,7 @@ impl<S: ServerPersistence, F: Fn() -> Result<S, StoreError>> Exec<S, F> {
             step: 0,
             nontrivial: false,
             digests: vec![],
+            soft: vec![],
         }
     }
 
@@ -585,7 +587,15 @@ impl<S: ServerPersistence, F: Fn() -> Result<S, StoreError>> Exec<S, F> {
             }
         }
         for it in list {
-            self.id_for(it)?;
+            match self.id_for(it) {
+                Ok(_) => {}
+                // an id collision is recorded and the remaining items are still checked
+                Err(f) if f.sig.contains("law=id_distinct") => {
+                    self.soft.push(f);
+                    continue;
+                }
+                Err(f) => return Err(f),
+            }
             self.read_value(it)?;
             self.read_map(it)?;
         }
@@ -612,7 +622,7 @@ pub struct SeqOut {
     pub calls: u64,
     pub nontrivial: bool,
     pub digests: Vec<u64>,
-    pub fail: Option<Fail>,
+    pub fails: Vec<Fail>,
 }
 
 fn run_on<S: ServerPersistence, F: Fn() -> Result<S, StoreError>>(open: F, cfg: Cfg, rocks: bool, items: &[Item], ops: &[Op], obs: ObsMode) -> SeqOut {
@@ -644,7 +654,9 @@ fn run_on<S: ServerPersistence, F: Fn() -> Result<S, StoreError>>(open: F, cfg: 
     if fail.is_some() {
         let _ = ex.close();
     }
-    SeqOut { calls: ex.calls, nontrivial: ex.nontrivial, digests: std::mem::take(&mut ex.digests), fail }
+    let mut fails = std::mem::take(&mut ex.soft);
+    fails.extend(fail);
+    SeqOut { calls: ex.calls, nontrivial: ex.nontrivial, digests: std::mem::take(&mut ex.digests), fails }
 }
 
 fn wipe(dir: &Path) {
